@@ -20,7 +20,7 @@ import (
 	f1testing "github.com/form3tech-oss/f1/v2/pkg/f1/testing"
 )
 
-var behaviours = []string{"pass", "Fail", "FailNow", "panic", "panic(error)", "Require-assertion", "FailNow-in-timed-stage", "panic-in-timed-stage", "runtime-error", "panic(int)", "Fatal(nil)", "Fatal(err)", "Errorf", "nil-RunFn"}
+var behaviours = []string{"pass", "Fail", "FailNow", "panic", "panic(error)", "Require-assertion", "FailNow-in-timed-stage", "panic-in-timed-stage", "runtime-error", "panic(int)", "Fatal(nil)", "Fatal(err)", "Errorf", "nil-RunFn", "panic(error-spelled-FailNow)", "passing-timed-stage"}
 
 func act(t *f1testing.T, b string) {
 	switch b {
@@ -37,6 +37,12 @@ func act(t *f1testing.T, b string) {
 	case "runtime-error":
 		var m map[string]int
 		m["x"] = 1
+	case "panic(error-spelled-FailNow)":
+		// a panic is a panic whatever its value says: the iteration stops and is reported failed
+		panic(errors.New("FailNow"))
+	case "passing-timed-stage":
+		// a component that passes and times a stage: what an earlier component marked stays marked
+		t.Time("stage", func() {})
 	case "Fatal(nil)":
 		// "the call returned a bad status and no error": Fatal stops the iteration whatever it is given
 		t.Fatal(nil)
@@ -53,7 +59,9 @@ func act(t *f1testing.T, b string) {
 	}
 }
 
-func stops(b string) bool { return b != "pass" && b != "Fail" && b != "Errorf" && b != "nil-RunFn" }
+func passes(b string) bool { return b == "pass" || b == "passing-timed-stage" }
+
+func stops(b string) bool { return !passes(b) && b != "Fail" && b != "Errorf" && b != "nil-RunFn" }
 
 // suite: all programs of minN..maxN components over the first nb behaviours; every
 // program is set up and run twice from the same combined scenario value (two
@@ -144,7 +152,7 @@ func suite(minN, maxN, nb int) hlib.Suite {
 					setupFailed := false
 					for i := 0; i < n; i++ {
 						want = append(want, fmt.Sprintf("setup%d", i))
-						if setupB[i] != "pass" && setupB[i] != "nil-RunFn" { // (as a setup behaviour "nil-RunFn" does nothing)
+						if !passes(setupB[i]) && setupB[i] != "nil-RunFn" { // (as a setup behaviour "nil-RunFn" does nothing)
 							setupFailed = true
 						}
 						if stops(setupB[i]) {
@@ -161,7 +169,7 @@ func suite(minN, maxN, nb int) hlib.Suite {
 									break // the iteration stops at the component that has no iteration function
 								}
 								want = append(want, fmt.Sprintf("iter%d@%d", i, it))
-								if iterB[i] != "pass" {
+								if !passes(iterB[i]) {
 									f = true
 								}
 								if stops(iterB[i]) {
@@ -220,9 +228,9 @@ func classify(got, want []string) string {
 
 func suites(tier string) []hlib.Suite {
 	if tier == "quick" {
-		return []hlib.Suite{suite(1, 2, 14), suite(3, 3, 5)}
+		return []hlib.Suite{suite(1, 2, 16), suite(3, 3, 5)}
 	}
-	return []hlib.Suite{suite(1, 2, 14), suite(3, 3, 10), suite(4, 4, 5)}
+	return []hlib.Suite{suite(1, 2, 16), suite(3, 3, 10), suite(4, 4, 5)}
 }
 
 func main() { hlib.EnumMain("C20", suites) } // hlib initialises the process-wide metrics instance T.Time needs
